@@ -94,6 +94,7 @@ type c14DSpec struct {
 	Rev   uint8
 	Shift int // c14DkMisaligned: bytes off the boundary; c14DkNearMissSig: signature byte index
 	Pad36 bool
+	Adjacent bool // sits one or two 16-byte blocks in front of the genuine root pointer, which overwrites its tail
 }
 
 type c14Spec struct {
@@ -603,7 +604,7 @@ func (e *c14Env) build(sp *c14Spec) *c14Image {
 		}
 		c14Put(at, b)
 		// generator self-check: none of these may be a candidate for the oracle
-		if d.Kind <= c14DkExtOnlyBad {
+		if d.Kind <= c14DkExtOnlyBad && !d.Adjacent {
 			n := 20
 			if d.Rev != 0 {
 				n = 36
@@ -631,6 +632,16 @@ func (e *c14Env) build(sp *c14Spec) *c14Image {
 			binary.LittleEndian.PutUint32(t, 36)
 			binary.LittleEndian.PutUint64(t[4:], r64)
 			c14Put(img.rsdpAddr+20, t)
+		}
+		for _, d := range sp.Decoys {
+			if !d.Adjacent {
+				continue
+			}
+			// its tail is now the head of the genuine structure: keep it a rejected candidate
+			at := slotAddr(d.Slot)
+			for c14Sum(vlib.BytesAt(at, 20)) == 0 || c14Sum(vlib.BytesAt(at, 36)) == 0 {
+				vlib.BytesAt(at+9, 1)[0]++
+			}
 		}
 		if sp.LaterSlot >= 0 {
 			c14Put(slotAddr(sp.LaterSlot), c14RSDP(sp.Rev, uint32(dcoyR.Addr), uint64(dcoyX.Addr), nextSeed()))
@@ -808,6 +819,23 @@ func c14Gen(r *vlib.Rand, idx int) *c14Spec {
 			d.Slot += r.Intn(2)
 		}
 		sp.Decoys = append(sp.Decoys, d)
+	}
+	if sp.HasRSDP && sp.Slot >= 2 && r.Chance(1, 3) {
+		// a rejected candidate directly in front of the genuine one: only its signature and the bytes up to the
+		// next 16-byte boundary are its own, the genuine structure begins inside what would be its body
+		free := true
+		for _, d := range sp.Decoys {
+			if d.Slot >= sp.Slot-6 {
+				free = false
+			}
+		}
+		if free {
+			d := c14DSpec{Slot: sp.Slot - r.Range(1, 2), Kind: c14DkRev0Bad, Rev: 0, Adjacent: true}
+			if r.Bool() {
+				d.Kind, d.Rev = r.PickInt([]int{c14DkExtBothBad, c14DkExtOnlyBad}), uint8(r.Range(1, 3))
+			}
+			sp.Decoys = append(sp.Decoys, d)
+		}
 	}
 	if sp.HasRSDP && sp.Slot+4 <= nslots-3 && r.Chance(3, 20) {
 		sp.LaterSlot = r.Range(sp.Slot+4, nslots-3)
